@@ -344,3 +344,98 @@ Fixpoint wcount (a w : Z) (ts : list Z) (gs : list bool) : Z :=
   | t :: ts', g :: gs' => (if g && in_win a w t then 1 else 0) + wcount a w ts' gs'
   | _, _ => 0
   end.
+
+(* ---- concurrent Allow calls (the server runs one goroutine per datagram) ---- *)
+(* Limiter.Allow is two atomic steps: (1) sync.Map.LoadOrStore(key, new limiter), which
+   yields a pointer to the key's rate.Limiter - the stored one, or the new one which it
+   stores in the same step; (2) rate.Limiter.Allow() on that pointer, under the limiter's
+   own mutex.  Buckets live in a heap and are named by their index, so that "which bucket
+   does this goroutine hold" is explicit; a schedule is any list of such steps. *)
+Record cstate := mkCS {
+  cs_map : list (key * nat);       (* sync.Map: key -> bucket *)
+  cs_heap : list bucket;
+  cs_held : list (nat * nat)       (* goroutine -> the bucket its LoadOrStore returned *)
+}.
+
+Inductive action :=
+| ALoad (th : nat) (now : Z)       (* goroutine th performs LoadOrStore *)
+| ATake (th : nat) (now : Z).      (* goroutine th performs Allow() on the bucket it holds *)
+
+Definition atime (a : action) : Z := match a with ALoad _ t => t | ATake _ t => t end.
+
+Fixpoint mfind (m : list (key * nat)) (k : key) : option nat :=
+  match m with [] => None | (k', i) :: r => if eqb_bytes k' k then Some i else mfind r k end.
+
+Fixpoint hfind (h : list (nat * nat)) (th : nat) : option nat :=
+  match h with [] => None | (th', i) :: r => if Nat.eqb th' th then Some i else hfind r th end.
+
+Fixpoint upd (h : list bucket) (i : nat) (b : bucket) : list bucket :=
+  match h, i with
+  | [], _ => []
+  | _ :: r, O => b :: r
+  | x :: r, S i' => x :: upd r i' b
+  end.
+
+(* keys th: the source address of goroutine th's datagram.  Result: new state and the
+   Allow result produced, if any *)
+Definition cstep (keys : nat -> key) (cs : cstate) (a : action) : cstate * list (key * Z * bool) :=
+  match a with
+  | ALoad th now =>
+      match mfind (cs_map cs) (keys th) with
+      | Some i => (mkCS (cs_map cs) (cs_heap cs) ((th, i) :: cs_held cs), [])
+      | None => let i := length (cs_heap cs) in
+                (mkCS ((keys th, i) :: cs_map cs) (cs_heap cs ++ [fresh now]) ((th, i) :: cs_held cs), [])
+      end
+  | ATake th now =>
+      match hfind (cs_held cs) th with
+      | None => (cs, [])                                  (* nothing to call Allow on yet *)
+      | Some i => let r := bstep (nth i (cs_heap cs) (fresh now)) now in
+                  (mkCS (cs_map cs) (upd (cs_heap cs) i (snd r)) (cs_held cs), [(keys th, now, fst r)])
+      end
+  end.
+
+Fixpoint crun (keys : nat -> key) (cs : cstate) (acts : list action) : list (key * Z * bool) :=
+  match acts with
+  | [] => []
+  | a :: r => let x := cstep keys cs a in snd x ++ crun keys (fst x) r
+  end.
+
+Definition cs0 : cstate := mkCS [] [] [].      (* services.NewLimiter() *)
+
+(* Allow calls of source k that returned true at a time in [a, a+w) *)
+Fixpoint cgrants (k : key) (a w : Z) (evs : list (key * Z * bool)) : Z :=
+  match evs with
+  | [] => 0
+  | (k', t, g) :: r => (if g && eqb_bytes k' k && in_win a w t then 1 else 0) + cgrants k a w r
+  end.
+
+(* the lookup-then-store variant (Load; on a miss NewLimiter + Store) for comparison: the
+   miss and the store are separate steps *)
+Inductive raction :=
+| RLoad (th : nat)                 (* Load: remember the bucket, or the miss *)
+| RStore (th : nat) (now : Z)      (* after a miss: new bucket, Store overwrites the entry *)
+| RTake (th : nat) (now : Z).
+
+Definition rstep (keys : nat -> key) (cs : cstate) (a : raction) : cstate * list (key * Z * bool) :=
+  match a with
+  | RLoad th =>
+      match mfind (cs_map cs) (keys th) with
+      | Some i => (mkCS (cs_map cs) (cs_heap cs) ((th, i) :: cs_held cs), [])
+      | None => (cs, [])
+      end
+  | RStore th now =>
+      let i := length (cs_heap cs) in
+      (mkCS ((keys th, i) :: cs_map cs) (cs_heap cs ++ [fresh now]) ((th, i) :: cs_held cs), [])
+  | RTake th now =>
+      match hfind (cs_held cs) th with
+      | None => (cs, [])
+      | Some i => let r := bstep (nth i (cs_heap cs) (fresh now)) now in
+                  (mkCS (cs_map cs) (upd (cs_heap cs) i (snd r)) (cs_held cs), [(keys th, now, fst r)])
+      end
+  end.
+
+Fixpoint rrun (keys : nat -> key) (cs : cstate) (acts : list raction) : list (key * Z * bool) :=
+  match acts with
+  | [] => []
+  | a :: r => let x := rstep keys cs a in snd x ++ rrun keys (fst x) r
+  end.
